@@ -76,3 +76,23 @@ package procbuilder
 //@   ensures stalled: !old(vm.InputsValid[fIn(vm, instr)]) ==> vm.Pc == old(vm.Pc) && !vm.InputsRecv[fIn(vm, instr)]
 //@   ensures unsupported: result != nil ==> vm.Pc == old(vm.Pc)
 //@   assigns vm.Registers[fReg(vm, instr)], vm.InputsRecv[fIn(vm, instr)], vm.Pc, vm.DeferredInstructions[*], vm.Extra_states[*]
+
+// ---- the call/ret family (dynamic opcodes): field layout of the assembled word and its inversion (C03) ------------
+
+//@ props C03
+
+// width of the target field: the ROM address width for callo, the RAM address width for calla, none for ret
+//@ spec callBits(op Call, arch *Arch) int := op.opType == OP_CALLA ? int(arch.L) : (op.opType == OP_RET ? 0 : int(arch.O))
+
+//@ func (op Call) Assembler(arch *Arch, words []string) (string, error)
+//@   requires wfArch(arch) && op.opType <= OP_RET
+//@   ensures nwords: result1 == nil ==> len(words) == (op.opType == OP_RET ? 0 : 1)
+//@   ensures target: result1 == nil && op.opType != OP_RET && arch.Opcodes_bits() + len(result) == arch.Max_word() ==>
+//@             len(result) >= callBits(op, arch) && val(sub(result, 0, callBits(op, arch))) == numval(words[0])
+//@   ensures binary: result1 == nil ==> isbin(result)
+//@   pure
+
+//@ func (op Call) Disassembler(arch *Arch, instr string) (string, error)
+//@   requires wfArch(arch) && op.opType <= OP_RET && len(instr) >= callBits(op, arch) && callBits(op, arch) <= 62
+//@   ensures text: result1 == nil && result == (op.opType == OP_RET ? "" : itoa(val(sub(instr, 0, callBits(op, arch)))))
+//@   pure
